@@ -181,7 +181,7 @@ def find_fn(text, scope, name):
     masked = mask_code(text)
     lo, hi = 0, len(text)
     if scope:
-        pat = re.compile(r"^[ \t]*" + r"\s+".join(re.escape(w) for w in scope.split()) + r"\b[^\n{;]*", re.M)
+        pat = re.compile(r"^[ \t]*" + r"\s+".join(re.escape(w) for w in scope.split()) + r"(?!\w)[^\n{;]*", re.M)
         ms = [m for m in pat.finditer(masked)]
         # the scope header may continue over several lines (where clauses) before its `{`
         cands = []
@@ -461,6 +461,26 @@ def generate(unit, cache):
                 fns["stub:" + kv["fn"]] = {"stub_of": "verus:%s::%s" % (kv["unit"], kv["fn"])}
             except ExtractError as e:
                 errors.append(("stub:" + kv.get("fn", "?"), str(e)))
+            i += 1
+            continue
+        mc = re.match(r"\s*//@struct_check\b(.*)", line)
+        if mc:
+            kv = parse_kv(mc.group(1))
+            try:
+                text = open(os.path.join(C.REPO, kv["file"])).read()
+                masked = mask_code(text)
+                m = re.search(r"\bstruct\s+%s\b[^{;]*\{" % re.escape(kv["name"]), masked)
+                if not m:
+                    raise ExtractError("struct %s not found" % kv["name"])
+                b = m.end() - 1
+                e = match_close(masked, b)
+                fields = re.findall(r"(?:^|,|\{)\s*(?:pub(?:\([^)]*\))?\s+)?(\w+)\s*:", masked[b:e])
+                if fields != kv["fields"].split(","):
+                    raise ExtractError("struct %s fields are %s, template transcribes %s" % (kv["name"], fields, kv["fields"]))
+                fns["struct:" + kv["name"]] = {"struct_fields_checked": fields}
+            except (ExtractError, KeyError, OSError) as ex:
+                errors.append(("struct:" + kv.get("name", "?"), str(ex)))
+            out.append(line)
             i += 1
             continue
         me = re.match(r"\s*//@extract\b(.*)", line)
